@@ -201,3 +201,23 @@ Section Safety.
     destruct Hstep as (s1 & E1 & G1). rewrite E1. apply IH; [exact G1|apply Hrest; exact E1].
   Qed.
 End Safety.
+
+(* ---- the recovered log as the in-memory model of C01 sees it ---- *)
+Definition log_of (s : st) : log := mkLog (segs_of (s_disk s)) (s_hw s) (d_ep (s_disk s)) false.
+
+Lemma good_wf s : Good s -> wf (log_of s) /\ all_recs (log_of s) = content (s_disk s).
+Proof.
+  intros G. split; [split|].
+  - cbn [log_of l_segs]. unfold segs_of. pose proof (g_ne _ G). destruct (d_segs (s_disk s)); [contradiction|discriminate].
+  - cbn [log_of l_segs]. apply WF_segs_wf. apply (g_wf _ G).
+  - unfold all_recs, log_of, content, segs_of. cbn [l_segs]. rewrite map_map. reflexivity.
+Qed.
+
+(* hence C01's reader theorem applies to whatever a crash leaves: an uncommitted reader from any
+   offset within the log returns exactly the recovered records at or above it *)
+Lemma recovered_read s o : Good s ->
+  fst (read_uncommitted (log_of s) o) = filter (ge_off o) (content (s_disk s)).
+Proof.
+  intros G. destruct (good_wf s G) as [Hw Hc]. destruct (read_uncommitted_refines (log_of s) o Hw) as [H _].
+  rewrite H, Hc. reflexivity.
+Qed.
